@@ -483,7 +483,9 @@ Op Gen::diskOp(bool distancesFn) {
     int res = (int)r.below(16);
     int k = (int)r.below(6);
     if (r.chance(0.3)) k = (int)r.range(0, boost ? 45 : 20);
-    if (r.chance(0.04)) k = (int)r.range(21, boost ? 120 : 64);  // heavy tail (3k(k+1)+1 = 12 481 cells at k = 64)
+    // heavy tail, bounded by cost: the library's fallback traversal takes 4 s at k = 64 and 71 s at k = 100 next to
+    // a pentagon (measured on the unchanged tree), against milliseconds up to k = 50
+    if (r.chance(0.04)) k = (int)r.range(21, boost ? 56 : 50);
     H3Index origin;
     double u = r.unit();
     if (u < 0.35) {
